@@ -146,7 +146,7 @@ func init() {
 		Assumptions: []string{"semantics not fixed by the statement are not judged: count/isEmpty over dotted paths, ordering of a string symbol against a number literal, map elements whose stored type differs from the literal's, icontains over non-ASCII, bare bool symbols holding null"},
 		Plan: func(tier core.Tier, seed int64) int {
 			if tier == core.Thorough {
-				return 6000
+				return 40000
 			}
 			return 320
 		},
